@@ -1,0 +1,4 @@
+//! HTTP status pages and metrics of the BMP unit (property C19).
+pub use crate::units::bmp_tcp_in::verif_http::{
+    prometheus_router_line, router_label, HttpFixture,
+};
